@@ -13,7 +13,7 @@ from checks import c01, hashcommon as hc
 
 gen = hc.gen
 DRIVERS = hc.DRIVERS
-PROFILE = {"mix": 2, "occ": 1, "reject": 7}
+PROFILE = {"mix": 2, "occ": 1, "reject": 6, "inflight": 3}
 
 
 def run(tier, replay=None):
